@@ -309,5 +309,19 @@ PROPS["C05"] = dict(
                  "a literal that embeds a definition has only scalar-valued own fields (the spec is silent on recursive closing of the host's nested fields)"],
 )
 
+PROPS["C04"] = dict(
+    pkg="c04",
+    subs=[
+        dict(name="disjunction", test="TestDisjunction", quick=2500, thorough=150000, shards=16),
+        dict(name="enum", test="TestEnum", quick=1, thorough=1, shards=16),
+    ],
+    technique="exhaustive enumeration of two-level marked disjunction products plus rapid-generated deeper expressions, against executable models of the spec's value/default-pair rules (pairwise U/D/M rewriting and a tagged disjunctive normal form), observed through unification with probe atoms, Default() and Validate(Concrete)",
+    level_text="exploration: expressions over 22 leaves (atoms, basic types, bounds, small open structs) built with &, | and * on the disjuncts of disjunctions that are not themselves inside a disjunct, nested to depth 3 and width 3; the enumeration covers every (m x | m y) & (m p | m q) and (m x | m y) & r & (m p | m q) over reduced leaf sets with every marking. Checked per case: (1) the set of 23 probe atoms/structs the value accepts equals the union over the product terms; (2) the resolved default is the spec pair's default: a unique concrete value exactly when the model has one (and then the same one), otherwise incomplete; (3) e | e and e | _|_ accept the same set.",
+    level_note="trusted: the models in c04_test.go; whether a disjunction-free conjunction of leaves is bottom is taken from the evaluator (a C03-checked behaviour). Where the spec's literal rule U2 and its prose about eliminated marks disagree the evaluator may follow either (counted as class spec-readings-differ).",
+    rule="expression tree from the generator/enumeration; non-trivial = contains a default mark and a conjunction both of whose operands contain a disjunction (a cross product with default bookkeeping); distinct = expression text.",
+    assumptions=["marks nested inside the disjuncts of marked disjunctions are outside the property (documented deviation) and are not generated",
+                 "marked expressions with any nesting of disjunctions (known findings F5, F73, F74), with a bound-versus-atom conflict whose late elimination changes the outcome (F75), or with conflicting defaults in a product of three or more disjunctions (F76) are excluded and counted; unmarked expressions are checked at any nesting"],
+)
+
 NOT_APPLICABLE = {}
 HOOK_COMMITS = []
